@@ -114,12 +114,27 @@ def roundtrip(chk):
         a[1].append(a) if i % 2 else a.append(a)
         d = {"k": []}
         d["k"].append(d)
-        for cyc in (a, d):
+        # cycles entered at every kind of container: list, dict, tuple, set-free model sequences, and reached from an acyclic parent
+        l1 = []
+        t1 = (0, l1)
+        l1.append(t1)
+        l2 = []
+        m2 = hm.List([l2])
+        l2.append(m2)
+        l3 = [3]
+        e3 = hm.Expression([hm.Symbol("f"), l3])
+        l3.append((e3,))
+        d4 = {}
+        d4["k"] = (1, [d4])
+        for cyc in (a, d, t1, [5, t1], {"a": t1}, m2, (m2,), e3, d4, (d4, 1)):
             try:
                 hy.as_model(cyc)
-                bad = ("no error for cycle", type(cyc).__name__)
+                bad = bad or ("no error for cycle", type(cyc).__name__)
             except HyWrapperError:
                 pass
+            except Exception as e:  # noqa: BLE001
+                bad = bad or (f"{type(e).__name__} instead of HyWrapperError for a self-referential structure entered at a {type(cyc).__name__}",)
+                hm._seen.clear()
             v = val(2)
             try:
                 after = hy.eval(hy.as_model(v), module=types.ModuleType("hv_c29"))
@@ -129,7 +144,8 @@ def roundtrip(chk):
                 bad = ("state leaked after a failed promotion, or a later promotion failed", v, repr(after), set(hm._seen))
                 hm._seen.clear()
         chk.case(("cyc", i))
-    chk.ob("rtc/self-referential structures raise HyWrapperError and later promotions work normally", bad is None, "rtc", "bounded", detail=str(bad))
+    chk.ob("rtc/self-referential structures raise HyWrapperError and later promotions work normally", bad is None, "rtc", "bounded", detail=str(bad),
+           replay=None if bad is None else {"confirmed": True, "input": "hy.as_model of a structure that contains itself", "observed": str(bad)[:300]})
 
 
 def run(chk):
